@@ -28,7 +28,7 @@ RULE = (
     "tucan(read(write(parse(s)))) == s. Non-trivial = >=1 wrapped line; distinct by case digest."
 )
 MANIFEST = {
-    "text": "Round-trip search with length targeting: graphs whose atom or bond lines land on and around every wrap boundary (71/72/73, 142..145, several wraps, wrap before/after a blank, inside MASS=, inside a number) are written, the text is checked against an own V3000 line grammar and re-read both by own code and by the library reader, and compared with the argument graph; canonical strings must survive string -> graph -> molfile -> graph -> string.",
+    "text": "Round-trip search with length targeting: graphs whose atom or bond lines land on and around every wrap boundary (71/72/73, 142..145, several wraps, wrap before/after a blank, inside MASS=, inside a number) are written, the text is checked against an own V3000 line grammar and re-read both by own code and by the library reader, and compared with the argument graph; canonical strings must survive string -> graph -> molfile -> graph -> string. In part of the cases the reader is first offered (and rejects) a damaged copy of the written file, so state leaking out of a failed read shows.",
     "note": "Trusted: the harness' own splice + per-line regexes. Timestamp line is not compared.",
     "technique": "property-based round-trip testing with boundary-targeted line lengths (Hypothesis, 16 shards)",
 }
